@@ -544,6 +544,12 @@ B("C01.entry_points_total", ["C01"], CB, "bounded_entry_points_total",
   "all strings of <= 3 characters (thorough 4) over 31 characters (zero-width, controls, non-BMP, double-width, quote, backslash, braces, legend and drawing characters, the arc glyph U+2939) "
   "through the compressed entry point, those of <= 2 characters and 13 fixed inputs (legend fragments, 3 bundled diagrams) through all five entry points x scales 0.001, 8, 1e6",
   timeout=600, timeout_thorough=3600)
+B("C11.render_scales_linearly", ["C11"], CB, "bounded_render_scales_linearly",
+  "to_svg_with_settings (whole pipeline): CellBuffer::get_node_with_size, Fragment::scale, every From<fragment> for Node renderer",
+  "the document at scale s has the same elements, in the same order, with the same classes as at scale 1, and every length attribute "
+  "(x, y, x1.., cx, cy, r, rx, width, height, points, path data without the arc flags) is s times the value at scale 1 (relative tolerance 1e-3)",
+  "38 small diagrams (bullets at either end and mid-line, arrows in 8 directions, double / dashed lines, boxes, rounded outlines with and without stub, circle, arcs, "
+  "diagonals, text, box-drawing glyphs) x scales 0.5, 3, 8, 37.5; text inside shapes left out (known finding)")
 B("N1.get_size_every_route", ["C12"], CB, "bounded_get_size_every_route", "CellBuffer::get_size / get_node_with_size / From<&str> / DerefMut<Target = BTreeMap>",
   "the canvas follows the cells that are in the buffer now, whichever way they got there (parsed, inserted through the map interface, removed)",
   "5 texts x 64 subsets of 6 inserted cells x {keep, remove the last inserted} x scales 1, 8")
